@@ -36,6 +36,14 @@ def check_C01(v, tier, rng):
                            K, R, 2, rng.randint(1, 10 ** 6), 'maxloss')
         c.meta['cls'] = 'corner'
         cases.append(c)
+    # wide high-rate configurations with few losses: ~60000 received originals at work positions >= 32768, the only place
+    # where an erasure-locator logarithm can be the literal 0 (below, the residue 0 is always stored as 65535)
+    for n in range(2 if q else 12):
+        R = rng.choice([3, 8, 21, 64])
+        K = rng.randint(56000, 65536 - np2(R))
+        c = roundtrip_case('wide%d' % n, rng, rng.choice(['rs', 'def', 'high']), 'default', K, R, 2, rng.randint(1, 10 ** 6), 'exactK')
+        c.meta['cls'] = 'wide'
+        cases.append(c)
     # one-shot functions
     for n in range(40 if q else 400):
         K, R, cls = shape_stream(rng, 1, 0, 0, 0)[0] if rng.random() < 0.7 else (shape_stream(rng, 0, 1, 0, 0) or [(3, 2, 'small')])[0]
